@@ -1009,6 +1009,9 @@ func (in *Interp) load(pv Value) Value {
 	if p.SB != nil {
 		return in.sbRead(p.SB, p.Idx)
 	}
+	if in.Ghost["ctrace"] != nil {
+		in.traceAccess("R", p)
+	}
 	if op, ok := p.Obj.V.(*Opaque); ok && len(p.Path) > 0 {
 		if in.lenient > 0 {
 			return &Opaque{T: nil, Tag: "field-of-" + op.Tag}
@@ -1034,6 +1037,13 @@ func (in *Interp) store(pv Value, v Value) {
 		in.end("unmodelled", "store through opaque object at %s", in.where())
 	}
 	in.X.noteStore(in, p)
+	if on, _ := in.Ghost["globalwrites.on"].(bool); on && in.lenient == 0 && strings.HasPrefix(p.Obj.Label, "global ") && strings.Contains(p.Obj.Label, in.P.RepoMod) {
+		in.Ghost["globalwrites"] = intGhost(in, "globalwrites") + 1
+		in.event("write to package-level variable %s", p.Obj.Label)
+	}
+	if in.Ghost["ctrace"] != nil {
+		in.traceAccess("W", p)
+	}
 	p.Obj.V = setPath(p.Obj.V, p.Path, v)
 }
 
